@@ -462,3 +462,13 @@ pub fn respell(p: &str, k: usize) -> String {
         },
     }
 }
+
+/// Like `refcanon`, keeping a trailing separator (n2 treats it as significant).
+pub fn refcanon_keep_trailing(p: &str) -> String {
+    let c = refcanon(p);
+    if p.ends_with('/') && c != "." && !c.ends_with('/') {
+        format!("{}/", c)
+    } else {
+        c
+    }
+}
